@@ -240,11 +240,22 @@ pub fn c14_acc<T: Elem + Copy>(out: &mut Vec<String>, chain: &[T]) {
         // a copy compares equal to the original, through `==` and through every ordering operator
         let c = *i;
         let cl = i.clone();
+        // `clone_from` into destinations of every kind (also element-wise through a Vec)
+        let mut cf_ok = true;
+        for d in ivs.iter().take(40) {
+            let mut dst = *d;
+            dst.clone_from(i);
+            cf_ok = cf_ok && dst == *i && dst.is_upper() == i.is_upper() && dst.is_lower() == i.is_lower();
+        }
+        let mut dv: Vec<Interval<T>> = ivs.iter().rev().take(5).cloned().collect();
+        let sv: Vec<Interval<T>> = std::iter::repeat(*i).take(5).collect();
+        dv.clone_from(&sv);
+        cf_ok = cf_ok && dv == sv;
         out.push(format!(
             "C14 copy {} {} => {} {} {} {} {} {}",
             t,
             enc_interval(i),
-            b(*i == c && *i == cl),
+            b(*i == c && *i == cl && cf_ok),
             ord_str(i.partial_cmp(&c)),
             b(*i <= c),
             b(*i >= c),
@@ -418,7 +429,11 @@ pub fn c19(out: &mut Vec<String>, chain: &[f64], rng: &mut Rng, n_tol: usize) {
             enc_interval(i),
             hexstr(&i.left().map(|x| format!("{}", x)).unwrap_or_default()),
             hexstr(&i.right().map(|x| format!("{}", x)).unwrap_or_default()),
-            hexstr(&format!("{}", i))
+            guarded(|| {
+                let plain = format!("{}", i);
+                let same = [format!("{:12}", i), format!("{:.2}", i), format!("{:+}", i)].iter().all(|f| *f == plain);
+                format!("{} {}", hexstr(&plain), b(same))
+            })
         ));
         for j in &ivs {
             // tolerances straddling the actual bound differences
@@ -442,14 +457,14 @@ pub fn c19(out: &mut Vec<String>, chain: &[f64], rng: &mut Rng, n_tol: usize) {
                 let mr = *rng.pick(&diffs);
                 let ulps = *rng.pick(&[0u32, 1, 2, 4, 1000, u32::MAX]);
                 let (ei, ej) = (enc_interval(i), enc_interval(j));
-                out.push(format!("C19 absdiff f {} {} {} => {}", ei, ej, eps.enc(), b(i.abs_diff_eq(j, eps))));
+                out.push(format!("C19 absdiff f {} {} {} => {} {}", ei, ej, eps.enc(), b(i.abs_diff_eq(j, eps)), b(i.abs_diff_ne(j, eps))));
                 out.push(format!(
                     "C19 releq f {} {} {} {} => {}",
                     ei,
                     ej,
                     eps.enc(),
                     mr.enc(),
-                    b(i.relative_eq(j, eps, mr))
+                    format!("{} {}", b(i.relative_eq(j, eps, mr)), b(i.relative_ne(j, eps, mr)))
                 ));
                 out.push(format!(
                     "C19 ulps f {} {} {} {} => {}",
@@ -457,7 +472,7 @@ pub fn c19(out: &mut Vec<String>, chain: &[f64], rng: &mut Rng, n_tol: usize) {
                     ej,
                     eps.enc(),
                     ulps,
-                    b(i.ulps_eq(j, eps, ulps))
+                    format!("{} {}", b(i.ulps_eq(j, eps, ulps)), b(i.ulps_ne(j, eps, ulps)))
                 ));
             }
         }
@@ -472,7 +487,12 @@ pub fn c19_display<T: Elem + Copy + std::fmt::Display>(out: &mut Vec<String>, ch
             enc_interval(i),
             hexstr(&i.left().map(|x| format!("{}", x)).unwrap_or_default()),
             hexstr(&i.right().map(|x| format!("{}", x)).unwrap_or_default()),
-            guarded(|| hexstr(&format!("{}", i)))
+            guarded(|| {
+                let plain = format!("{}", i);
+                let flagged = [format!("{:12}", i), format!("{:>14}", i), format!("{:.2}", i), format!("{:+}", i), format!("{:08.3}", i)];
+                let same = flagged.iter().all(|f| *f == plain);
+                format!("{} {}", hexstr(&plain), b(same))
+            })
         ));
     }
 }
